@@ -232,6 +232,15 @@ impl Toggle {
         };
         tx(&mut self.app, OWNER, vec![msg], Fault::None)
     }
+    /// what the pool quotes for a fixed small swap (None for the vault or when the query fails)
+    fn quote(&self) -> Option<String> {
+        let a = (self.cfg.amount / 10).max(1);
+        match self.cfg.target {
+            Target::PairCp | Target::PairStable => query::<pair::SimulationResponse, _>(&self.app, &self.pair, &pair::QueryMsg::Simulation { offer_asset: self.asset(&self.a_native, a) }).ok().map(|r| format!("{r:?}")),
+            Target::Trio => query::<trio::SimulationResponse, _>(&self.app, &self.trio, &trio::QueryMsg::Simulation { offer_asset: self.asset(&self.a_native, a), ask_asset: self.asset(&self.c_native, 0) }).ok().map(|r| format!("{r:?}")),
+            Target::Vault => None,
+        }
+    }
     fn flags(&self) -> Option<[bool; 3]> {
         match self.cfg.target {
             Target::PairCp | Target::PairStable => query::<pair::ConfigResponse, _>(&self.app, &self.pair, &pair::QueryMsg::Config {}).ok().map(|c| [c.feature_toggle.deposits_enabled, c.feature_toggle.withdrawals_enabled, c.feature_toggle.swaps_enabled]),
@@ -351,6 +360,18 @@ impl Scenario for Toggle {
             }
             s.cfg = saved;
         }
+        if cfg.funded && cfg.target == Target::Trio {
+            // an amplification ramp started earlier is still running when the switches are used
+            let h0 = height(&s.app);
+            let msg = wasm_exec(&s.pool_factory, &factory::ExecuteMsg::UpdateTrioConfig { trio_addr: s.trio.clone(), owner: None, fee_collector_addr: None, pool_fees: None, feature_toggle: None, amp_factor: Some(trio::RampAmp { future_a: 400, future_block: h0 + 20_000 }) }, vec![]);
+            let r = tx(&mut s.app, OWNER, vec![msg], Fault::None);
+            if !r.outcome.is_ok() {
+                panic!("harness: starting a ramp failed: {}", r.outcome.err_text());
+            }
+            let t = now_ns(&s.app);
+            set_clock(&mut s.app, t + 7_000 * 6_000_000_000, h0 + 7_000);
+            ctx.probe("ramp_in_progress_while_toggling");
+        }
         // script: every path under the configured toggles, then every path again after re-enabling
         let n = paths(&cfg.target).len();
         for p in 0..n {
@@ -374,7 +395,12 @@ impl Scenario for Toggle {
         let bits = match step.phase {
             Phase::Toggled => {
                 if !self.toggled {
+                    let q0 = self.quote();
                     let r = self.set_toggles(self.cfg.bits);
+                    // switching operations off and on must not reprice the pool
+                    if self.cfg.funded && r.outcome.is_ok() && self.quote() != q0 && q0.is_some() {
+                        ctx.fail("C17", "toggle_update", "quote_changed_by_toggle_update", None, format!("the same Simulation answered {:?} before and {:?} after setting the toggles {:03b}", q0, self.quote(), self.cfg.bits));
+                    }
                     if !r.outcome.is_ok() {
                         ctx.fail("C17", "toggle_update", "owner_update_failed", None, format!("setting toggles {:03b} failed: {}", self.cfg.bits, r.outcome.err_text()));
                     }
@@ -401,7 +427,11 @@ impl Scenario for Toggle {
             }
             Phase::Reenabled => {
                 if !self.reenabled {
+                    let q0 = self.quote();
                     let r = self.set_toggles(7);
+                    if self.cfg.funded && r.outcome.is_ok() && self.quote() != q0 && q0.is_some() {
+                        ctx.fail("C17", "toggle_update", "quote_changed_by_toggle_update", None, format!("the same Simulation answered {:?} before and {:?} after re-enabling everything", q0, self.quote()));
+                    }
                     if !r.outcome.is_ok() {
                         ctx.fail("C17", "toggle_update", "reenable_failed", None, r.outcome.err_text());
                     }
